@@ -30,7 +30,7 @@ NUM = r'(-?)(\d+)(?:\.(\d+))?(?:e(-?\d+))?'
 
 def parse_real(text, unit):
     """'[-]12.3e-3mV' -> (Fraction value, digits shown after point, total exponent) or None"""
-    if text in ('∞' + unit, '∞'):
+    if text.lstrip('-') in ('∞' + unit, '∞'):       # saturated display of a value beyond the largest prefix (C18_saturate)
         return ('inf', 0, 0)
     m = re.fullmatch(NUM + r'([pnuμmckMGT]?)' + re.escape(unit), text)
     if not m:
@@ -169,7 +169,7 @@ def ac_program(rng, w):
     return p
 
 
-def examine_drawing(ctx, program, rng, ac_w=None):
+def examine_drawing(ctx, program, rng, ac_w=None, p_fixed=None):
     import matplotlib.pyplot as plt
     from CircuitCalculator.SimpleCircuit import DiagramSolution as ds
     import c13
@@ -181,7 +181,7 @@ def examine_drawing(ctx, program, rng, ac_w=None):
     names = [s['name'] for s in program['symbols'] if s['cls'] not in ('Line', 'Ground', 'LabelNode', 'Node')]
     labels = [s['name'] for s in program['symbols'] if s['cls'] in ('LabelNode',)]
     rep0 = {'program': program}
-    p = rng.choice([2, 3, 3, 4, 5])
+    p = p_fixed or rng.choice([2, 3, 3, 4, 5])
     try:
         if ac_w is None:
             adapters = {'real': ds.real_solution(d, precision=p)}
@@ -197,6 +197,11 @@ def examine_drawing(ctx, program, rng, ac_w=None):
         sv = first._solution._solution_vector
         if np.size(sv) and not np.any(sv):
             ctx.count('ill-posed-drawing(excluded)')
+            return
+        if np.size(sv) and (not np.all(np.isfinite(sv)) or np.max(np.abs(sv)) > 1e9):
+            # a near-singular system that LAPACK did not reject (e.g. a current source feeding an open-ended chain): the solution object holds
+            # rounding noise of order 1e15; saturated displays of such numbers are C18's subject
+            ctx.count('ill-conditioned-drawing(excluded)')
             return
     except Exception as e:  # noqa: BLE001
         ctx.count(f'adapter-raises-{type(e).__name__}(excluded; C13)')
@@ -249,8 +254,23 @@ def examine_drawing(ctx, program, rng, ac_w=None):
     plt.close('all')
 
 
+def in_carry_region(x, p):
+    """C18's known finding: |x| in [1 - 10^-p/2, 1) is shown with exponent 0 and a one-digit mantissa ('0.0010kV', sign lost)"""
+    return 1 - 0.5 * 10.0 ** (-p) <= abs(x) < 1
+
+
 def judge(kind, text, unit, ref, p, q, w, peak=False):
-    """-> list of (key, what)"""
+    """-> list of (key, what); failures caused by C18's recorded carry defect get that finding's key"""
+    bad = judge0(kind, text, unit, ref, p, q, w, peak)
+    if bad:
+        z = complex(ref)
+        mags = [abs(z.real), abs(z.imag), abs(z), abs(z) * math.sqrt(2)]
+        if any(in_carry_region(m, p) for m in mags):
+            return [('C14:carry-to-one-below-unity', what) for _, what in bad]
+    return bad
+
+
+def judge0(kind, text, unit, ref, p, q, w, peak=False):
     if kind == 'real':
         if q == 'power':
             # print_active_power: magnitude with default prefix table, arrow gives the sign
@@ -379,6 +399,14 @@ def run(ctx):
             w = rng.choice([1.0, 50.0, 314.0, 1000.0])
             examine_drawing(ctx, ac_program(rng, w), rng, ac_w=w)
         examine_declarative(ctx, rng)
+        # the recorded finding C14:carry-to-one-below-unity, deliberately: 0.99999999 V across a resistor at precision 4
+        carry = {'unit': 3, 'symbols': [
+            {'cls': 'VoltageSource', 'name': 'V1', 'p': [0, 0], 'q': [0, 1], 'reverse': False, 'kw': {'V': 0.99999999}},
+            {'cls': 'Resistor', 'name': 'R1', 'p': [0, 1], 'q': [1, 1], 'reverse': False, 'kw': {'R': 10.0}},
+            {'cls': 'Line', 'name': '', 'p': [1, 1], 'q': [1, 0], 'reverse': False, 'kw': {}},
+            {'cls': 'Line', 'name': '', 'p': [1, 0], 'q': [0, 0], 'reverse': False, 'kw': {}},
+            {'cls': 'Ground', 'name': '0', 'p': [0, 0], 'q': None, 'reverse': False, 'kw': {}}]}
+        examine_drawing(ctx, carry, rng, p_fixed=4)
     return RULE
 
 
